@@ -201,6 +201,48 @@ def judge_janssen(ctx, c):
         ctx.ratio("C10.janssen:stress-balance<=1e-4", abs(r) / sc, 1e-4)
 
 
+def judge_janssen_history(ctx, c):
+    """the same generation object and the same spectrum object: roughness(), update_parameters(), roughness() again
+    with identical winds - the second answer must belong to the updated parameters (it must equal what a fresh object
+    with those parameters returns for a fresh spectrum object, and differ from the first when the parameters matter)"""
+    g, d = c["pair"].split("/")
+    b = wl.make_balance(g, d, c.get("gen_params"))
+    s = wl.build(c)
+    itype = c["input_type"]
+    speed = np.asarray(c["u10"], float) * (0.035 if itype == "friction_velocity" else 1.0)
+    sp, wd = wl.da(speed), wl.da(c["wdir"])
+    wit = lambda: {"gen": c, "history": True}  # noqa
+    upd = dict(c["update"])
+    ctx.case(("janssen-history", c["kind"], itype, tuple(sorted(upd))), nontrivial=True,
+             sample={"kind": c["kind"], "update_parameters": upd, "input_type": itype})
+    ok, z1 = guarded(ctx, "C10.no-exception", lambda: b.generation.roughness(sp, wd, s, wind_speed_input_type=itype), wit,
+                     key="C10:janssen:exception")
+    if not ok:
+        return
+    # typical use: the same spectra and winds are evaluated several times in a row
+    guarded(ctx, "C10.no-exception", lambda: b.generation.stress(s, sp, wd, wind_speed_input_type=itype), wit, key="C10:janssen:exception")
+    b.generation.update_parameters(upd)
+    ok, z2 = guarded(ctx, "C10.no-exception", lambda: b.generation.roughness(sp, wd, s, wind_speed_input_type=itype), wit,
+                     key="C10:janssen:exception")
+    merged = dict(c.get("gen_params") or {})
+    merged.update(upd)
+    fresh = wl.make_balance(g, d, merged)
+    okf, zf = guarded(ctx, "C10.no-exception", lambda: fresh.generation.roughness(sp, wd, wl.build(c), wind_speed_input_type=itype), wit,
+                      key="C10:janssen:exception")
+    if not (ok and okf):
+        return
+    a, f_ = np.asarray(z2.values, float), np.asarray(zf.values, float)
+    ctx.count("C10.janssen_histories(update_parameters between two solves)")
+    ctx.count("C10.janssen_history_points_where_the_update_matters", int(np.sum(np.isfinite(f_) & (np.abs(f_ - np.asarray(z1.values, float)) > 1e-6 * np.abs(f_)))))
+    same = np.array_equal(np.isfinite(a), np.isfinite(f_)) and bool(np.all(np.abs(a - f_)[np.isfinite(f_)] <= 1e-9 * np.abs(f_[np.isfinite(f_)])))
+    ctx.check("C10.janssen:after-update_parameters==fresh-object", same, wit, {"reused": a, "fresh": f_, "before_update": z1.values},
+              key="C10:janssen:history:stale-after-update_parameters")
+
+
+UPDATES = [{"growth_parameter_betamax": 1.2}, {"growth_parameter_betamax": 1.9, "wave_age_tuning_parameter": 0.008},
+           {"viscous_stress_parameter": 0.1}, {"charnock_constant": 0.02, "growth_parameter_betamax": 1.7}]
+
+
 def make_janssen(rng, i):
     c = wl.make_case(rng, kind=["windsea", "windsea", "mixed"][i % 3], npoints=int(rng.integers(1, 4)),
                      nd=int(rng.choice([24, 36])))
@@ -216,11 +258,16 @@ def run_shard(ctx, shard):
             judge_charnock(ctx, make_charnock(rng, i))
     else:
         for i in range(shard["n"]):
-            judge_janssen(ctx, make_janssen(rng, i + shard.get("index", 0)))
+            c = make_janssen(rng, i + shard.get("index", 0))
+            judge_janssen(ctx, c)
+            if i % 2 == 0:
+                judge_janssen_history(ctx, dict(c, update=UPDATES[int(rng.integers(0, len(UPDATES)))]))
 
 
 def replay(ctx, case):
     if case.get("part") == "charnock":
         judge_charnock(ctx, case)
+    elif case.get("history"):
+        judge_janssen_history(ctx, case["gen"])
     else:
         judge_janssen(ctx, case["gen"])
